@@ -527,7 +527,8 @@ def _is_sink_call(call: ast.Call) -> typing.Optional[str]:
     src = ast.unparse(call.func)
     if src in LISTING_CALLS:
         return 'RdListing'
-    if re.match(r'^(logger|logging|self\._logger|_logger)\.(debug|info|warning|error|exception|critical|log)$', src):
+    if isinstance(call.func, ast.Attribute) and call.func.attr in ('debug', 'info', 'warning', 'error', 'exception', 'critical', 'log') \
+            and re.search(r'log', ast.unparse(call.func.value), flags=re.I):
         return 'RdDiagnostic'
     return None
 
@@ -613,6 +614,10 @@ def _source_folder_loads_ok(trees: typing.Dict[str, ast.Module]) -> bool:
                 if isinstance(p, ast.Attribute) and p.attr in PATH_REDUCERS:
                     continue
                 if isinstance(p, ast.Call) and isinstance(par.get(id(p)), ast.Raise):
+                    continue
+                if isinstance(p, ast.Compare):
+                    continue
+                if isinstance(p, ast.Call) and _is_sink_call(p):
                     continue
                 if isinstance(p, ast.Return):
                     fn = p
